@@ -50,6 +50,8 @@ var c02Catalogue = []string{
 	"wrong-name-ip",          // the client is configured with an IP literal as server name; the certificates do not list it
 	"recent-expired",         // certificates that ended mid-2029: expired at the configured time (2030), in date on the wall clock (2024) and on a real clock
 	"late-honest",            // control: certificates in date from mid-2029 - valid at the configured time only
+	"resume-twice-zero-master", // honest full handshake, honest resumption, then a peer without any key resumes the session with an all-zero master secret
+	"honest-short-rand",      // control: the client's Config.Rand hands out 3 bytes per call; must complete, and the hello's random must be filled
 	"skx-signed-by-enc-key",  // genuine certificate pair, but the peer holds only the encryption key and signs ServerKeyExchange with it
 	"valid-then-expired",     // an honest connection succeeds; later the same configuration (same root pool object) reports a time after the certificates' end
 	"valid-then-expired-resume", // same with a session cache: the server tries to resume the session made while the certificates were valid
@@ -58,7 +60,7 @@ var c02Catalogue = []string{
 func (c02) ID() string    { return "C02" }
 func (c02) Level() string { return "fault_enumeration" }
 func (c02) Rule() string {
-	return "enumerates the impostor catalogue (untrusted CA, expired, not yet valid, wrong name, single certificate, swapped, mixed CAs; ServerKeyExchange signed by another key / over other randoms / over another certificate or other ECDH parameters / corrupted / empty / omitted; no encryption key; ServerKeyExchange signed with the encryption key; no keys at all; unverified session resumed under a verifying configuration; certificates that were in date at an earlier successful connection and are expired at the time now configured, with and without a cached session) x 4 suites x InsecureSkipVerify on/off x both stacks, plus honest controls; thorough repeats it under many seeds (segmentation, schedules, fresh randoms). A scripted server built on the independent reference implementation plays the impostor against a real client and keeps its transcript and keys consistent. distinct = distinct (stack, suite, verify flag, impostor, outcome); non-trivial = the scripted flow reached the deviating step"
+	return "enumerates the impostor catalogue (untrusted CA, expired, not yet valid, wrong name, single certificate, swapped, mixed CAs; ServerKeyExchange signed by another key / over other randoms / over another certificate or other ECDH parameters / corrupted / empty / omitted; no encryption key; ServerKeyExchange signed with the encryption key; no keys at all; unverified session resumed under a verifying configuration; a key-less peer resuming with an all-zero master secret after an honest resumption; a control whose Config.Rand hands out 3 bytes per call (the hello's random must be filled); certificates that were in date at an earlier successful connection and are expired at the time now configured, with and without a cached session) x 4 suites x InsecureSkipVerify on/off x both stacks, plus honest controls; thorough repeats it under many seeds (segmentation, schedules, fresh randoms). A scripted server built on the independent reference implementation plays the impostor against a real client and keeps its transcript and keys consistent. distinct = distinct (stack, suite, verify flag, impostor, outcome); non-trivial = the scripted flow reached the deviating step"
 }
 func (c02) Components() (real, stub []string) {
 	return []string{"tlcp/dtlcp client (instrumented): certificate verification, key agreement checks, Finished check, session cache"},
@@ -105,7 +107,7 @@ func (c02) Make(tier string, seed uint64, i int) *Case {
 // c02MustFail says whether the client has to refuse this impostor.
 func c02MustFail(imp string, skip bool) bool {
 	switch imp {
-	case "honest", "late-honest":
+	case "honest", "late-honest", "honest-short-rand":
 		return false
 	case "untrusted-ca", "expired", "not-yet-valid", "wrong-name", "mixed-ca", "wrong-name-ip", "resume-unverified-mixed", "valid-then-expired", "valid-then-expired-resume", "recent-expired":
 		return !skip // certificate checks only: acceptable once verification is disabled (keys are held)
@@ -210,6 +212,8 @@ func (c02) Run(c *Case, src *vs.Src) *Result {
 		cc.ServerName = "192.0.2.10"
 	case "skx-signed-by-enc-key":
 		o.SigKey = sm2Key("server_enc")
+	case "honest-short-rand":
+		cc.ShortRand = true
 	case "valid-then-expired", "valid-then-expired-resume":
 		cc.RootPool = pool(cc.Roots)
 	}
@@ -224,6 +228,7 @@ func (c02) Run(c *Case, src *vs.Src) *Result {
 		unf      []string
 		peerSent []string
 		peerRecv []string
+		chRandom []byte
 	}
 	var tcache tlcp.SessionCache
 	var dcache dtlcp.SessionCache
@@ -260,6 +265,9 @@ func (c02) Run(c *Case, src *vs.Src) *Result {
 			co.out = h.Peer.Run(opts, script)
 			co.peerSent = h.Peer.Sent
 			co.peerRecv = h.Peer.Received
+			if h.Peer.CH != nil {
+				co.chRandom = h.Peer.CH.Random
+			}
 			// a peer that is done (or stuck) goes away
 			h.ClosePeerSide()
 		})
@@ -289,6 +297,26 @@ func (c02) Run(c *Case, src *vs.Src) *Result {
 		o2 := *o
 		o2.Resume, o2.Master = true, h1.Peer.Master
 		co, _, _ = runConn(1, &c2, &o2, []string{"rCH", "SH", "CCS", "FIN", "rFLIGHT", "APP", "rAPP"})
+	} else if p.Impostor == "resume-twice-zero-master" {
+		c1 := *cc
+		c1.Cache = "shared"
+		first, _, h1 := runConn(0, &c1, o, ops)
+		if first.hsErr != nil || first.reason != vs.Done {
+			r.Violate("setup", sigp+" setup-failed", "the honest full handshake failed: %v (%s)", first.hsErr, first.reason)
+			return r
+		}
+		resumeScript := []string{"rCH", "SH", "CCS", "FIN", "rFLIGHT", "APP", "rAPP"}
+		o2 := *o
+		o2.Resume, o2.Master = true, h1.Peer.Master
+		second, _, _ := runConn(1, &c1, &o2, resumeScript)
+		if second.hsErr != nil || second.reason != vs.Done || !second.cs.Resumed {
+			r.Violate("setup", sigp+" setup-failed", "the honest resumption failed: %v (%s) resumed=%v", second.hsErr, second.reason, second.cs.Resumed)
+			return r
+		}
+		// the impostor holds no key at all; it knows the session id (public) and guesses a master secret of zeros
+		o3 := peer.Opts{Suites: o.Suites, Certs: o.Certs, Resume: true, Master: make([]byte, 48)}
+		ownEnc = ""
+		co, _, _ = runConn(2, &c1, &o3, resumeScript)
 	} else if p.Impostor == "valid-then-expired" || p.Impostor == "valid-then-expired-resume" {
 		// connection 1: everything is in order at the configured date
 		c1 := *cc
@@ -346,6 +374,19 @@ func (c02) Run(c *Case, src *vs.Src) *Result {
 			r.Violate("data-delivered", sigp+" data-delivered", "Read delivered %d bytes although the handshake failed", co.readN)
 		}
 	} else if !mustFail {
+		if p.Impostor == "honest-short-rand" {
+			// the random value of the hello must be filled whatever the reader's read sizes: the first four bytes
+			// may be the time; of the other 28 at most a few can be zero by chance
+			zeros := 0
+			for _, b := range co.chRandom[4:] {
+				if b == 0 {
+					zeros++
+				}
+			}
+			if len(co.chRandom) != 32 || zeros > 12 {
+				r.Violate("randomness", sigp+" client-random-not-filled", "with a Config.Rand that hands out 3 bytes per call the ClientHello random is %x (%d zero bytes behind the first four)", co.chRandom, zeros)
+			}
+		}
 		if co.wrote != nil || co.readN == 0 {
 			r.Violate("control-data", sigp+" control-data", "accepted peer but data exchange failed: write %v, read n=%d err=%v", co.wrote, co.readN, co.readErr)
 		}
